@@ -841,7 +841,12 @@ class _Writer(object):
         }
         if dict_offset is not None:
             md["dictionary_page_offset"] = dict_offset
-        st = _make_statistics(leaf, cplan.get("stats"), phys, nulls)
+        stat_nulls = nulls
+        if max_rep and cplan.get("null_count_mode") == "leaf_values":
+            # the other convention met in practice for repeated columns: only null *values* are counted, not the level
+            # entries of empty or null collections ("count of null value in the column" is all the format says)
+            stat_nulls = sum(1 for d in defs if d == max_def - 1) if leaf.get("repetition") == "OPTIONAL" else 0
+        st = _make_statistics(leaf, cplan.get("stats"), phys, stat_nulls)
         if st is not None:
             md["statistics"] = st
         if cplan.get("encoding_stats", True):
